@@ -14,6 +14,7 @@ import (
 	"github.com/godaddy/asherah/go/appencryption"
 	"github.com/godaddy/asherah/go/appencryption/pkg/crypto/aead"
 	"pgregory.net/rapid"
+	"verif/backing"
 	"verif/kit"
 	"verifhook"
 )
@@ -85,10 +86,16 @@ func newFactory(fx *fixture, store appencryption.Metastore, cache bool) *appencr
 func newFixture() *fixture { return newFixtureSuffix("") }
 
 // newFixtureSuffix builds the pool over a store that reports the given region suffix.
-func newFixtureSuffix(suffix string) *fixture {
+func newFixtureSuffix(suffix string) *fixture { return newFixtureOver(suffix, "") }
+
+// newFixtureOver builds the pool over a real metastore implementation (see kit.Store.Backing) when backend is set.
+func newFixtureOver(suffix, backend string) *fixture {
 	verifhook.InstallClock(time.Unix(1_700_000_000, 0))
 	log := &kit.CallLog{}
 	fx := &fixture{store: kit.NewStore(log), kms: kit.NewSpyKMS(log), byData: map[string]int{}, warm: map[string]*appencryption.Session{}, service: "svc", product: "prod"}
+	if backend != "" {
+		fx.store.Backing = backing.New(backend)
+	}
 	fx.store.Suffix = suffix
 	fx.suffix = suffix
 	fx.factory = newFactory(fx, fx.store, true)
@@ -300,6 +307,12 @@ func TestRecombinationAndStructure(t *testing.T) {
 // TestRecombinationAndStructureSuffixed: the same with a region-suffixing metastore (another partition implementation).
 func TestRecombinationAndStructureSuffixed(t *testing.T) {
 	recombinationAndStructure(t, newFixtureSuffix("us-west-2"))
+}
+
+// TestRecombinationAndStructureMemoryMetastore: the same over the real MemoryMetastore (lookups of
+// known ids with unknown timestamps, unknown ids, ... go through its own code).
+func TestRecombinationAndStructureMemoryMetastore(t *testing.T) {
+	recombinationAndStructure(t, newFixtureOver("", "memory"))
 }
 
 func recombinationAndStructure(t *testing.T, fx *fixture) {
